@@ -226,8 +226,16 @@ def rule_forms(ctx: Ctx):
     nm = [n for n in ast.walk(f.node) if isinstance(n, ast.AugAssign) and isinstance(n.target, ast.Name) and env3 is not None and n.target.id == env3["total"]]
     ok = tot is not None and bool(nm) and nm[0] is tot and S.has("{ce: cp / total for ce, cp in post.items()}", {k: env3[k] for k in ("total", "post")})
     ctx.check(ok, "ALG-2", f, nm[0] if nm else f.node, "condition: normalised by the sum of the retained masses", "", "conditioning is not normalised by its own total")
-    gd = S.find("if weight > 0:\n    REST", env, within=lp[0]) if env is not None else []
-    ok = bool(gd) and (not st or env2 is None or any(_inside(st[0], g) for g, _ in gd))
+    # on the path to the store the weight is known to be positive — `if weight > 0: store` and `if not weight > 0: continue; store` alike
+    from ..util import lexical_guards, atomic_facts, cmp_views
+    wn = env.get("weight") if env is not None else None
+    ok = False
+    if st and wn:
+        for t_, lab in lexical_guards(f, st[0]):
+            tru = lab.startswith("T")
+            for l_, op, r_ in cmp_views(t_):
+                if l_ == wn and r_ in ("0", "0.0") and ((op == ">" and tru) or (op == "<=" and not tru)):
+                    ok = True
     ctx.check(ok, "ALG-2", f, f.node, "condition: zero-likelihood events are dropped", "", "zero-likelihood events are kept")
     # joint
     f = FD.methods["joint"]
